@@ -247,7 +247,7 @@ pub fn run(ctx: &Ctx) {
     ctx.replay_known("perm-programs", |c: &crate::checks::pp::Case| crate::e1::without_exclusions(|| crate::checks::pp::oracle_bus(c, "C09/perm-programs")));
 }
 
-pub const RULE_NPO: &str = "honest MMCS opening circuits (arity-2 degree-4 Poseidon2 configurations, base and extension \
+pub const RULE_NPO: &str = "honest MMCS opening circuits (arity-2 and arity-4 degree-4 Poseidon2 configurations, base and extension \
 leaves, hiding on/off, caps, mixed heights; optionally with the leaf widths steered so that the permutation table is \
 exactly full) built by verify_batch_circuit*, executed, proven with the Poseidon2 and recompose tables registered and \
 verified natively. Oracle: the WitnessChecks bus of the honest traces balances, i.e. the proof is not rejected with a \
